@@ -519,6 +519,9 @@ class ObjectBase(EntityContainer):
         if not isinstance(children, list):
             children = [children]
 
+        # the caller may hand over the child list itself
+        children = list(children)
+
         for child in children:
             if child not in self._children:
                 continue
